@@ -224,6 +224,31 @@ func instrument(rel string, src []byte, keepFuncs []string) []byte {
 		})
 	}
 
+	// sync.Pool hands out whatever the goroutine's current P has cached and forgets everything at a garbage collection: which
+	// buffer a Get returns is decided by the OS scheduler and the GC.  simrt.Pool has the same API and lets the run's seed decide.
+	pools, syncOther := 0, 0
+	ast.Inspect(f, func(n ast.Node) bool {
+		se, ok := n.(*ast.SelectorExpr)
+		if !ok {
+			return true
+		}
+		if id, ok := se.X.(*ast.Ident); ok && id.Name == "sync" && id.Obj == nil {
+			if se.Sel.Name == "Pool" {
+				id.Name = "simrt"
+				pools++
+				stats["pools"]++
+			} else {
+				syncOther++
+			}
+		}
+		return true
+	})
+	if pools > 0 && syncOther == 0 {
+		// keep the file's sync import in use
+		f.Decls = append(f.Decls, &ast.GenDecl{Tok: token.VAR, Specs: []ast.Spec{&ast.ValueSpec{Names: []*ast.Ident{ast.NewIdent("_")},
+			Type: &ast.SelectorExpr{X: ast.NewIdent("sync"), Sel: ast.NewIdent("Locker")}}}})
+	}
+
 	// collect every function body first; statement recursion never enters expressions,
 	// so each body is rewritten exactly once
 	var bodies []*ast.BlockStmt
